@@ -236,7 +236,7 @@ def encode(fd, seed=0, typemap=None):
                             strs = []
                             for i in range(o["n"]):
                                 kk = counters.get(o["p"], 0)
-                                v = value(t, o["p"], kk, seed, width=i)
+                                v = ("%03d" % (kk % 1000)) if fd.get("strfix") else value(t, o["p"], kk, seed, width=i)
                                 counters[o["p"]] = kk + 1
                                 enc.values.setdefault(o["p"], []).append(v)
                                 strs.append(v.encode("utf-8"))
